@@ -85,7 +85,7 @@ theorem readStrV1_good {c : Cfg} {B : Nat} (hc : Hard c B) (r : Rd) :
   · refine GoodR.bind (GoodR.mono (readNCopy_good _ r') hr') ?_
     intro bs r'' h; simpa [GoodR, pure, Except.pure] using h
 
-theorem readStrV23_good {c : Cfg} {B : Nat} (hc : Hard c B) (r : Rd) (hB : 16 * r.rest.length ≤ B) :
+theorem readStrV23_good {c : Cfg} {B : Nat} (hc : Hard c B) (r : Rd) (hB : r.rest.length ≤ B) :
     GoodR r.rest.length (readStrV23 c r) := by
   unfold readStrV23
   refine GoodR.bind (readUint_good _ _ r) ?_
@@ -103,7 +103,7 @@ theorem readStrV23_good {c : Cfg} {B : Nat} (hc : Hard c B) (r : Rd) (hB : 16 * 
     · simp [hc.g, Guards.all, GoodR, isBad]
     · exact GoodR.mono (readN_good _ r') hr'
 
-theorem readStr_good {c : Cfg} {B : Nat} (hc : Hard c B) (r : Rd) (hB : 16 * r.rest.length ≤ B) :
+theorem readStr_good {c : Cfg} {B : Nat} (hc : Hard c B) (r : Rd) (hB : r.rest.length ≤ B) :
     GoodR r.rest.length (readStr c r) := by
   unfold readStr; split
   · exact readStrV1_good hc r
@@ -125,7 +125,7 @@ theorem readScalar_good (c : Cfg) (t w : Nat) (r : Rd) : GoodR r.rest.length (re
   intro n r' hr'; simpa [GoodR, pure, Except.pure] using hr'
 
 theorem readElem_good {c : Cfg} {B : Nat} (hc : Hard c B) (t : Nat) (collect : Bool) (r : Rd)
-    (hB : 16 * r.rest.length ≤ B) : GoodR r.rest.length (readElem c t collect r) := by
+    (hB : r.rest.length ≤ B) : GoodR r.rest.length (readElem c t collect r) := by
   unfold readElem
   split
   · refine GoodR.bind (readScalar_good _ _ _ r) ?_
@@ -142,7 +142,7 @@ theorem readElem_good {c : Cfg} {B : Nat} (hc : Hard c B) (t : Nat) (collect : B
     · simp [GoodR, isBad]
 
 theorem readElems_good {c : Cfg} {B : Nat} (hc : Hard c B) (t : Nat) (collect : Bool) :
-    ∀ (k : Nat) (r : Rd), 16 * r.rest.length ≤ B → GoodR r.rest.length (readElems c t collect k r) := by
+    ∀ (k : Nat) (r : Rd), r.rest.length ≤ B → GoodR r.rest.length (readElems c t collect k r) := by
   intro k
   induction k with
   | zero => intro r _; simp [readElems, GoodR]
@@ -157,7 +157,7 @@ theorem readElems_good {c : Cfg} {B : Nat} (hc : Hard c B) (t : Nat) (collect : 
     · refine GoodR.bind (GoodR.mono (ih r' (by omega)) hr') ?_
       intro es r'' h; simpa [GoodR, pure, Except.pure] using h
 
-theorem readArr_good {c : Cfg} {B : Nat} (hc : Hard c B) (r : Rd) (hB : 16 * r.rest.length ≤ B) :
+theorem readArr_good {c : Cfg} {B : Nat} (hc : Hard c B) (r : Rd) (hB : r.rest.length ≤ B) :
     GoodR r.rest.length (readArr c r) := by
   unfold readArr
   refine GoodR.bind (readUint_good _ _ r) ?_
@@ -182,7 +182,7 @@ theorem readArr_good {c : Cfg} {B : Nat} (hc : Hard c B) (r : Rd) (hB : 16 * r.r
       refine GoodR.bind hel ?_
       intro es r3 h3; simpa [GoodR, pure, Except.pure] using h3
 
-theorem readValue_good {c : Cfg} {B : Nat} (hc : Hard c B) (t : Nat) (r : Rd) (hB : 16 * r.rest.length ≤ B) :
+theorem readValue_good {c : Cfg} {B : Nat} (hc : Hard c B) (t : Nat) (r : Rd) (hB : r.rest.length ≤ B) :
     GoodR r.rest.length (readValue c t r) := by
   unfold readValue
   split
@@ -196,7 +196,7 @@ theorem readValue_good {c : Cfg} {B : Nat} (hc : Hard c B) (t : Nat) (r : Rd) (h
       · simp [GoodR, isBad]
 
 theorem readKVs_good {c : Cfg} {B : Nat} (hc : Hard c B) :
-    ∀ (k : Nat) (acc : List (Bytes × Val)) (r : Rd), 16 * r.rest.length ≤ B →
+    ∀ (k : Nat) (acc : List (Bytes × Val)) (r : Rd), r.rest.length ≤ B →
       GoodR r.rest.length (readKVs c k acc r) := by
   intro k
   induction k with
@@ -224,7 +224,7 @@ theorem readShape_good (c : Cfg) : ∀ (k : Nat) (r : Rd), GoodR r.rest.length (
     refine GoodR.bind (GoodR.mono (ih r1) h1) ?_
     intro ds r2 h2; simpa [GoodR, pure, Except.pure] using h2
 
-theorem readTensor_good {c : Cfg} {B : Nat} (hc : Hard c B) (r : Rd) (hB : 16 * r.rest.length ≤ B) :
+theorem readTensor_good {c : Cfg} {B : Nat} (hc : Hard c B) (r : Rd) (hB : r.rest.length ≤ B) :
     GoodR r.rest.length (readTensor c r) := by
   unfold readTensor
   refine GoodR.bind (readStr_good hc r hB) ?_
@@ -246,7 +246,7 @@ theorem readTensor_good {c : Cfg} {B : Nat} (hc : Hard c B) (r : Rd) (hB : 16 * 
     intro off r5 h5; simpa [GoodR, pure, Except.pure] using h5
 
 theorem readTensors_good {c : Cfg} {B : Nat} (hc : Hard c B) :
-    ∀ (k : Nat) (r : Rd), 16 * r.rest.length ≤ B → GoodR r.rest.length (readTensors c k r) := by
+    ∀ (k : Nat) (r : Rd), r.rest.length ≤ B → GoodR r.rest.length (readTensors c k r) := by
   intro k
   induction k with
   | zero => intro r _; simp [readTensors, GoodR]
@@ -277,7 +277,7 @@ theorem alignmentOf_safe (kvs : List (Bytes × Val)) : Safe (alignmentOf Guards.
   split <;> simp [Safe, Guards.all, isBad]
 
 theorem decodeBody_safe {c : Cfg} {B : Nat} (hc : Hard c B) (numKV numTensor : Nat) (r : Rd)
-    (hB : 16 * r.rest.length ≤ B) : Safe (decodeBody c numKV numTensor r) := by
+    (hB : r.rest.length ≤ B) : Safe (decodeBody c numKV numTensor r) := by
   unfold decodeBody
   refine GoodR.safe_bind (readKVs_good hc numKV [] r hB) ?_
   intro kvs r1 h1
@@ -299,7 +299,7 @@ theorem decodeBody_safe {c : Cfg} {B : Nat} (hc : Hard c B) (numKV numTensor : N
 
 /-- decoder safety from any reader state (the file positioned anywhere): what `ggufLayers` relies on
     for the second and later models of an upload -/
-theorem decodeFrom_safe_all (r : Rd) (maxArraySize : Int) (B : Nat) (hB : 16 * r.rest.length ≤ B) :
+theorem decodeFrom_safe_all (r : Rd) (maxArraySize : Int) (B : Nat) (hB : r.rest.length ≤ B) :
     Safe (decodeFrom r maxArraySize (some B) Guards.all) := by
   unfold decodeFrom
   simp only []
@@ -316,7 +316,7 @@ theorem decodeFrom_safe_all (r : Rd) (maxArraySize : Int) (B : Nat) (hB : 16 * r
     exact decodeBody_safe ⟨rfl, rfl⟩ nKV nT r4 (by omega)
 
 /-- **Decoder safety (hardened variant), for every byte string.** -/
-theorem decode_safe_all (bs : Bytes) (maxArraySize : Int) (B : Nat) (hB : 16 * bs.length ≤ B) :
+theorem decode_safe_all (bs : Bytes) (maxArraySize : Int) (B : Nat) (hB : bs.length ≤ B) :
     Safe (decode bs maxArraySize (some B) Guards.all) :=
   decodeFrom_safe_all ⟨bs, 0⟩ maxArraySize B hB
 
